@@ -605,6 +605,14 @@ func main() {
 			}
 		}
 	}
+	if quick {
+		// client-side limit x encryption x compression: incompressible and all-zero payloads
+		for e := 0; e < 4; e++ {
+			for _, ct := range []string{"inc", "zero"} {
+				names = append(names, tcase{"tcp", e&1 == 1, e&2 == 2, "client", "", 16385, ct, "whole", "both", "user"}.name())
+			}
+		}
+	}
 	maxSplit := drv.Pick(c, 40, 600)
 	for pos := 1; pos <= maxSplit; pos++ {
 		names = append(names, fmt.Sprintf("split/tcpmux/%d", pos), fmt.Sprintf("split/https/%d", pos))
